@@ -676,6 +676,9 @@ impl Session {
             writeln!(out, "R {} dead", seq).unwrap();
             return Res::Bad;
         }
+        if !matches!(op, Op::Raw(_) | Op::Root(_) | Op::CrashProbe(..)) {
+            self.clock.advance();
+        }
         let res = self.run(op, fault, out);
         if let Res::Bad = res {
             writeln!(out, "R {} bad-script", seq).unwrap();
